@@ -187,6 +187,8 @@ def render_doc(doc, lay, module_name=False, head=None):
     for l in doc["lines"]:
         if doc.get("form") == "bare":
             out.append(l)
+        elif doc.get("form") == "mixed" and l != "" and l[0] not in " #[]" and (len(out) % 3 != 0):
+            out.append(ind + "#" + l)       # '#' leader with zero following spaces (at most one is removed)
         else:
             out.append(ind + ("# " + l if l != "" else "#"))
     out.append(ind + "#]]")
@@ -211,6 +213,8 @@ def _between_doc_and_cmd(lay, ind):
 
 
 def test_args(it):
+    if it.get("noname"):
+        return list(it["pre"]) + list(it["post"])
     return list(it["pre"]) + ["NAME", it["name"]] + list(it["post"])
 
 
